@@ -287,7 +287,7 @@ func (u *Unit) FreshOfType(st *State, prefix string, t types.Type) Term {
 func (u *Unit) typeInv(st *State, v Term, t types.Type) {
 	switch v.Sort {
 	case SInt:
-		st.Assume(inRange(t, v))
+		u.Axiom(inRange(t, v))
 	case SStr:
 		u.Axiom(And(Ge(App("slen", SInt, v), IntLit(0)), Le(App("slen", SInt, v), maxInt)))
 	case SV:
@@ -299,7 +299,7 @@ func (u *Unit) typeInv(st *State, v Term, t types.Type) {
 		if si := u.P.TW.StructBySort(v.Sort); si != nil {
 			for _, f := range si.Fields {
 				if f.Sort == SInt {
-					st.Assume(inRange(f.Type, u.Field(v, si, indexOfField(si, f.Name))))
+					u.Axiom(inRange(f.Type, u.Field(v, si, indexOfField(si, f.Name))))
 				}
 			}
 		}
